@@ -47,7 +47,45 @@ def self_attr_store(e: Event, attr: str) -> bool:
         and e.target.attr == attr and src(e.target.value) == 'self'
 
 
+def none_truth(f, term: str):
+    """truth of a guard as a function of `term is None`: {True: b1, False: b0}; None when the
+    guard depends on anything else"""
+    def ev(f, isnone: bool):
+        k = f[0]
+        if k == 'true':
+            return True
+        if k == 'false':
+            return False
+        if k == 'iter':
+            return True
+        if k == 'not':
+            return not ev(f[1], isnone)
+        if k == 'and':
+            return all(ev(x, isnone) for x in f[1:])
+        if k == 'or':
+            return any(ev(x, isnone) for x in f[1:])
+        if k == 'atom':
+            e = f[1]
+            if isinstance(e, ast.Compare) and len(e.ops) == 1 and \
+                    isinstance(e.ops[0], (ast.Is, ast.IsNot, ast.Eq, ast.NotEq)):
+                l, r = e.left, e.comparators[0]
+                for a, b in ((l, r), (r, l)):
+                    if src(a) == term and isinstance(b, ast.Constant) and b.value is None:
+                        return isnone == isinstance(e.ops[0], (ast.Is, ast.Eq))
+            raise KeyError(show(f))
+        raise KeyError(show(f))
+    try:
+        return {True: ev(f, True), False: ev(f, False)}
+    except KeyError:
+        return None
+
+
+def gexp(w: GuardWalk, g):
+    return w.expand_formula(strip_iter(g))
+
+
 def run(index: RepoIndex, rep) -> None:
+    from ..view import view
     rep.rule('C04.R1', 'every write of _state comes from one functional_reset()/'
              'functional_step(self.state, action) call and is followed on every path by '
              '_observation = None; step returns that call\'s reward and flag', floor=5)
@@ -62,22 +100,32 @@ def run(index: RepoIndex, rep) -> None:
 
     cls = index.cls(INNER, 'InnerEnv')
     # ---------------------------------------------------------------- R1
+    # private methods that are inlined into their callers are judged at the call sites
+    inlined_somewhere = set()
+    for mname, m in cls.methods.items():
+        inlined_somewhere |= set(view(index, m)[2])
     writers = 0
+    private_writers = []
     for mname, m in sorted(cls.methods.items()):
         if mname == '__init__':
             continue
-        w = walk_function(m.node)
+        node, w, _ = view(index, m)
         st = [e for e in w.events if self_attr_store(e, '_state')]
         if not st:
             continue
-        writers += 1
+        helper_only = mname in inlined_somewhere and mname.startswith('_')
+        if helper_only:
+            private_writers.append(mname)
+        else:
+            writers += 1
         fcalls = [e for e in w.events if e.kind == 'call'
                   and src(e.node.func) in ('self.functional_reset', 'self.functional_step')]
-        rep.check(len(fcalls) == 1 and not fcalls[0].loops, 'C04.R1', INNER, m.short,
-                  m.node.lineno, '; '.join(src(c.node) for c in fcalls),
-                  f'{m.short} calls the functional interface {len(fcalls)} times (a second '
-                  f'call consumes randomness and desynchronises the trajectory)',
-                  'one functional call')
+        if not helper_only:
+            rep.check(len(fcalls) == 1 and not fcalls[0].loops, 'C04.R1', INNER, m.short,
+                      m.node.lineno, '; '.join(src(c.node) for c in fcalls),
+                      f'{m.short} calls the functional interface {len(fcalls)} times (a second '
+                      f'call consumes randomness and desynchronises the trajectory)',
+                      'one functional call')
         params = [a.arg for a in m.node.args.args[1:]]
         for e in st:
             v = w.expand(e.value) if e.value is not None else None
@@ -88,9 +136,11 @@ def run(index: RepoIndex, rep) -> None:
                 a = [src(x) for x in v.value.args]
                 ok = len(a) == 2 and a[0] in ('self.state', 'self._state') and a[1] in params \
                     and not v.value.keywords
-            rep.check(ok, 'C04.R1', INNER, m.short, e.line, src(e.stmt),
-                      f'_state is assigned `{vs}`, not the result of functional_reset() / '
-                      f'component 0 of functional_step(self.state, <action>)', 'state source')
+            if not helper_only:
+                rep.check(ok, 'C04.R1', INNER, m.short, e.line, src(e.stmt),
+                          f'_state is assigned `{vs}`, not the result of functional_reset() / '
+                          f'component 0 of functional_step(self.state, <action>)',
+                          'state source')
             inv = [x for x in w.events if self_attr_store(x, '_observation')
                    and x.order > e.order and x.value is not None and src(x.value) == 'None'
                    and implies_syntactic(e.guard, x.guard)]
@@ -101,9 +151,9 @@ def run(index: RepoIndex, rep) -> None:
                       f'{m.short}: a path from the write of _state reaches the exit without '
                       f'`self._observation = None` (stale observation)', 'invalidation')
         # step-like: returns (reward, done) of the same call
-        if fcalls and src(fcalls[0].node.func) == 'self.functional_step':
+        if fcalls and src(fcalls[0].node.func) == 'self.functional_step' and not helper_only:
             rets = [e for e in w.events if e.kind == 'return' and e.value is not None]
-            call_s = src(fcalls[0].node)
+            call_s = src(w.expand(fcalls[0].node))
             good = f'({call_s}[1], {call_s}[2])'
             for r in rets:
                 rs = src(w.expand(r.value))
@@ -114,12 +164,23 @@ def run(index: RepoIndex, rep) -> None:
                       f'{m.short} does not return the reward and flag', 'step returns')
     if writers < 2:
         raise AnalysisError(f'InnerEnv: {writers} methods write _state, floor is 2 (reset, step)')
+    # a private writer is an internal step of reset/step: nobody else may call it
+    for pw in private_writers:
+        for mod in index.modules.values():
+            for n in ast.walk(mod.tree):
+                if isinstance(n, ast.Attribute) and n.attr == pw and \
+                        not (mod.relpath == INNER and src(n.value) == 'self'):
+                    rep.violation('C04.R1', mod.relpath, '<module>', n.lineno, src(n),
+                                  f'the internal state setter {pw} is used outside '
+                                  f'InnerEnv.reset/step (the state would change without a '
+                                  f'functional call)')
 
     # ---------------------------------------------------------------- R2
     m = cls.methods.get('observation')
     if m is None or not m.is_property():
         raise AnalysisError('anchor vanished: InnerEnv.observation property')
-    w = walk_function(m.node)
+    node, w, _ = view(index, m)
+    MEMO = 'self._observation'
     calls = [e for e in w.events if e.kind == 'call'
              and src(e.node.func) == 'self.functional_observation']
     rep.check(len(calls) == 1 and not calls[0].loops, 'C04.R2', INNER, 'InnerEnv.observation',
@@ -127,27 +188,40 @@ def run(index: RepoIndex, rep) -> None:
               f'the observation property calls functional_observation {len(calls)} times',
               'one call')
     for c in calls:
-        a = [src(x) for x in c.node.args]
+        a = [src(w.expand(x)) for x in c.node.args]
         rep.check(a in (['self.state'], ['self._state']) and not c.node.keywords, 'C04.R2',
                   INNER, 'InnerEnv.observation', c.line, src(c.node),
                   f'functional_observation is called on `{a}`, not on the current state',
                   'observes current state')
-        g = fkey(strip_iter(c.guard))
-        rep.check(g == 'self._observation is None', 'C04.R2', INNER, 'InnerEnv.observation',
+        g = gexp(w, c.guard)
+        t = none_truth(g, MEMO)
+        rep.check(t == {True: True, False: False}, 'C04.R2', INNER, 'InnerEnv.observation',
                   c.line, src(c.node),
-                  f'the observation is computed under `{g}`, not only when the memo is None '
-                  f'(recomputing consumes randomness / returns a different observation)',
+                  f'the observation is computed under `{show(g)}`, not exactly when the memo is '
+                  f'None (recomputing consumes randomness / returns a different observation)',
                   'lazy')
     stores = [e for e in w.events if self_attr_store(e, '_observation')]
-    rep.check(len(stores) == 1 and calls and stores[0].value is calls[0].node, 'C04.R2', INNER,
-              'InnerEnv.observation', m.node.lineno,
-              '; '.join(src(s.stmt) for s in stores),
-              'the computed observation is not stored into the memo exactly once', 'memoised')
+    call_s = src(w.expand(calls[0].node)) if calls else ''
+    rep.check(len(stores) == 1 and calls and src(w.expand(stores[0].value)) == call_s
+              and none_truth(gexp(w, stores[0].guard), MEMO) == {True: True, False: False},
+              'C04.R2', INNER, 'InnerEnv.observation', m.node.lineno,
+              '; '.join(src(s_.stmt) for s_ in stores),
+              'the computed observation is not stored into the memo exactly once, when the memo '
+              'is empty', 'memoised')
     for r in [e for e in w.events if e.kind == 'return']:
-        rs = src(r.value) if r.value is not None else 'None'
-        rep.check(rs == 'self._observation', 'C04.R2', INNER, 'InnerEnv.observation', r.line,
-                  src(r.stmt), f'the observation property returns `{rs}`, not the memo',
-                  'returns memo')
+        rs = src(w.expand(r.value)) if r.value is not None else 'None'
+        t = none_truth(gexp(w, r.guard), MEMO)
+        after_store = bool(stores) and r.order > stores[0].order
+        if rs == MEMO:
+            # the memo is returned either where it is known to be set, or after it was filled
+            ok = (t is not None and not t[True]) or after_store
+        else:
+            # the freshly computed value, which is also the one stored
+            ok = rs == call_s and bool(stores) and after_store and \
+                t is not None and not t[False]
+        rep.check(ok, 'C04.R2', INNER, 'InnerEnv.observation', r.line,
+                  src(r.stmt), f'the observation property returns `{rs}` under '
+                  f'`{show(gexp(w, r.guard))}`: not the memoised observation', 'returns memo')
     for e in w.events:
         if self_attr_store(e, '_state'):
             rep.violation('C04.R2', INNER, 'InnerEnv.observation', e.line, src(e.stmt),
@@ -157,16 +231,18 @@ def run(index: RepoIndex, rep) -> None:
     m = cls.methods.get('state')
     if m is None or not m.is_property():
         raise AnalysisError('anchor vanished: InnerEnv.state property')
-    w = walk_function(m.node)
+    node, w, _ = view(index, m)
     raises = [e for e in w.events if e.kind == 'raise']
     rets = [e for e in w.events if e.kind == 'return']
-    rep.check(any(fkey(strip_iter(e.guard)) == 'self._state is None' for e in raises),
+    ST = 'self._state'
+    rep.check(any(none_truth(gexp(w, e.guard), ST) == {True: True, False: False}
+                  for e in raises),
               'C04.R3', INNER, 'InnerEnv.state', m.node.lineno,
               '; '.join(src(e.stmt) for e in raises) or 'no raise',
               'asking for the state before the first reset does not raise', 'guard')
     rep.check(len(rets) >= 1 and all(
-        r.value is not None and src(r.value) == 'self._state'
-        and fkey(strip_iter(r.guard)) == 'not (self._state is None)' for r in rets),
+        r.value is not None and src(w.expand(r.value)) == ST
+        and none_truth(gexp(w, r.guard), ST) == {True: False, False: True} for r in rets),
         'C04.R3', INNER, 'InnerEnv.state', m.node.lineno,
         '; '.join(src(e.stmt) for e in rets),
         'the state property does not return _state exactly when it is set', 'returns state')
@@ -228,15 +304,19 @@ def run(index: RepoIndex, rep) -> None:
         m = oc.methods.get(prop)
         if m is None:
             raise AnalysisError(f'anchor vanished: OuterEnv.{prop}')
-        w = walk_function(m.node)
+        node, w, _ = view(index, m)
         rets = [e for e in w.events if e.kind == 'return' and e.value is not None]
         want = f'self.{rep_attr}.convert(self.inner_env.{inner})'
-        rep.check(len(rets) >= 1 and all(src(w.expand(r.value)) == want for r in rets),
-                  'C04.R5', OUTER, f'OuterEnv.{prop}', m.node.lineno,
-                  '; '.join(src(r.stmt) for r in rets),
-                  f'OuterEnv.{prop} does not return {want}', f'convert {prop}')
+        REP = f'self.{rep_attr}'
+        rep.check(len(rets) >= 1 and all(
+            src(w.expand(r.value)) == want
+            and none_truth(gexp(w, r.guard), REP) == {True: False, False: True} for r in rets),
+            'C04.R5', OUTER, f'OuterEnv.{prop}', m.node.lineno,
+            '; '.join(src(r.stmt) for r in rets),
+            f'OuterEnv.{prop} does not return {want}', f'convert {prop}')
         raises = [e for e in w.events if e.kind == 'raise']
-        rep.check(any(fkey(strip_iter(e.guard)) == f'self.{rep_attr} is None' for e in raises),
+        rep.check(any(none_truth(gexp(w, e.guard), REP) == {True: True, False: False}
+                      for e in raises),
                   'C04.R5', OUTER, f'OuterEnv.{prop}', m.node.lineno,
                   '; '.join(src(e.stmt) for e in raises) or 'no raise',
                   f'OuterEnv.{prop} does not raise when the representation is missing',
@@ -244,8 +324,8 @@ def run(index: RepoIndex, rep) -> None:
     m = oc.methods.get('reset')
     if m is None:
         raise AnalysisError('anchor vanished: OuterEnv.reset')
-    w = walk_function(m.node)
-    calls = [src(e.node) for e in w.events if e.kind == 'call']
+    node, w, _ = view(index, m)
+    calls = [src(w.expand(e.node)) for e in w.events if e.kind == 'call']
     rep.check(calls.count('self.inner_env.reset()') == 1 and len(calls) == 1, 'C04.R5', OUTER,
               'OuterEnv.reset', m.node.lineno, '; '.join(calls),
               'OuterEnv.reset does not delegate to inner_env.reset() exactly once',
@@ -253,12 +333,13 @@ def run(index: RepoIndex, rep) -> None:
     m = oc.methods.get('step')
     if m is None:
         raise AnalysisError('anchor vanished: OuterEnv.step')
-    w = walk_function(m.node)
+    node, w, _ = view(index, m)
     p = [a.arg for a in m.node.args.args[1:]]
     rets = [src(w.expand(e.value)) for e in w.events if e.kind == 'return' and e.value is not None]
-    calls = [src(e.node) for e in w.events if e.kind == 'call']
+    calls = [src(w.expand(e.node)) for e in w.events if e.kind == 'call']
     want = f'self.inner_env.step({p[0]})' if p else ''
-    rep.check(rets == [want] and calls == [want], 'C04.R5', OUTER, 'OuterEnv.step',
+    tup = f'({want}[0], {want}[1])'
+    rep.check(rets in ([want], [tup]) and calls == [want], 'C04.R5', OUTER, 'OuterEnv.step',
               m.node.lineno, '; '.join(rets),
               f'OuterEnv.step does not return inner_env.step(action) of exactly one call',
               'delegate step')
